@@ -293,7 +293,9 @@ func replayNewMap(line []byte, a *Acc) {
 	}
 	// malformed pairs must be rejected with an error and leave the receiver alone
 	mv := l.M.ToMap()
-	for _, bad := range []string{"a:b:c", ":new", "old:", "a:b*", "a:b[0]", "a[x]:p", "a[:p"} {
+	for _, bad := range []string{"a:b:c", ":new", "old:", "a:b*", "a:b[0]", "a[x]:p", "a[:p",
+		// the shorthand "old" stands for "old:old": a wildcard or an index makes the NEW key malformed
+		"a.*", "*", "a[0]", "a.b[1]", "*.a", "a[0].b"} {
 		var err error
 		if p := guard(func() { _, err = mv.NewMap(bad) }); p != "" {
 			a.Mis("newmap:malformed-panic", fmt.Sprintf("NewMap(%q): %s", bad, p), nmLine{F: "newmap", M: l.M})
